@@ -34,6 +34,15 @@ def check(ctx):
         states += r["distinct"]
         trans += r["generated"]
         mc.append(dict(cfg=c, distinct=r["distinct"], generated=r["generated"], wall_s=round(r["wall"], 1)))
+    if prop == "C07":
+        # the duplicate check under a store that fails once (fix e203d09): the repaired walk passes for every pair and every position of
+        # the failure, the behaviour before the fix (the error swallowed, the link forgotten) must report a node twice
+        r = model_check(ctx, "MastDiff.tla", "MC_Diff_glitch.cfg", workers=14, heap=10, timeout=1800)
+        states += r["distinct"]
+        trans += r["generated"]
+        mc.append(dict(cfg="MC_Diff_glitch.cfg", distinct=r["distinct"], generated=r["generated"], wall_s=round(r["wall"], 1)))
+        r = model_check(ctx, "MastDiff.tla", "MC_Diff_glitch_asis.cfg", expect_ok=False, workers=8, heap=8, timeout=900)
+        mc.append(dict(cfg="MC_Diff_glitch_asis.cfg", expected="counterexample", found=r["error"]))
     if prop == "C06":
         r = model_check(ctx, "MastDiff.tla", "MC_Diff_asis.cfg", expect_ok=False, workers=4, heap=4, timeout=600)
         mc.append(dict(cfg="MC_Diff_asis.cfg", expected="counterexample", found=r["error"]))
